@@ -453,6 +453,9 @@ fn check_c02(pe: &PointEval, item: u64, acc: &mut Acc) {
     let spread = lx.iter().cloned().fold(f64::NEG_INFINITY, f64::max) - lx.iter().cloned().fold(f64::INFINITY, f64::min);
     acc.set("parameter_spread_decades", format!("1e{:02}", (spread / std::f64::consts::LN_10).floor() as i64));
     acc.count(if v_ok { "all_bounds_checked" } else { "u_bounds_checked_only" });
+    if !fails.is_empty() && std::env::var("C02_DEBUG").is_ok() {
+        eprintln!("kappa={:e} bu={:e} bv={:e} cancel={:e} exactU={:e} u={:e} ln_ut={:e}", ex.kappa, bu, bvv, ex.cancel_ratio, qf(&ex.det), out.u, ln_ut);
+    }
     if !fails.is_empty() {
         acc.violate(
             item,
